@@ -394,4 +394,57 @@ theorem c09_cold_fresh_partial (src : Source) (fr rt rt' : Runtime)
     rw [r3, b12, b13]
     exact ⟨ho, hmem⟩
 
+/-- **Instances that existed before a restart are never touched by it.**  In particular a
+RETAIN/PERSISTENT FB-typed global keeps (by `c09_warm_globals_kept`) its instance handle AND the
+whole state of that instance, including members declared NON_RETAIN; and the old program
+instances stay in the table unchanged — which is what stale bindings keep reading. -/
+theorem c09_old_instances_untouched (mode : Mode) (rt rt' : Runtime) (hwf : WF rt)
+    (h : restart mode rt = .ok rt') (id : Nat) (hid : id < rt.storage.nextId) :
+    rt'.storage.getInstance id = rt.storage.getInstance id :=
+  restart_old_instances mode rt rt' hwf h id hid
+
+/-! ## Non-vacuity of the hypotheses -/
+
+/-- Witness 6 is well-formed, restarts succeed on it, and it has retained and non-retained
+globals and program variables with values: the hypotheses of the warm/cold/program-variable
+theorems are jointly satisfiable (on a state reached by two real cycles). -/
+example :
+    WF W.rt6 ∧ (restart .warm W.rt6).toOption.isSome = true ∧ (restart .cold W.rt6).toOption.isSome = true ∧
+    (∃ m, m ∈ W.rt6.globalsMeta ∧ retainOnWarm m.retain = true ∧ (W.rt6.storage.getGlobal m.name).isSome = true) ∧
+    (∃ m, m ∈ W.rt6.globalsMeta ∧ retainOnWarm m.retain = false ∧ m.name = 10) ∧
+    (∃ p d, p ∈ W.rt6.programs ∧ d ∈ p.vars ∧ retainOnWarm d.retain = true ∧
+      W.num? (W.rt6.progVar p.name d.name) = some 9) := by
+  refine ⟨⟨by decide, by decide, by decide, by decide⟩, by decide, by decide, ?_, ?_, ?_⟩
+  · exact ⟨W.rt6.globalsMeta[1]'(by decide), List.getElem_mem _, by decide, by decide⟩
+  · exact ⟨W.rt6.globalsMeta[0]'(by decide), List.getElem_mem _, by decide, by decide⟩
+  · exact ⟨W.rt6.programs[0]'(by decide), (W.rt6.programs[0]'(by decide)).vars[0]'(by decide),
+      List.getElem_mem _, List.getElem_mem _, by decide, by decide⟩
+
+/-- The guards of `c09_cold_fresh_partial` are satisfiable: witness 6, state after two cycles. -/
+example :
+    build W.src6 = some W.fr6 ∧ W.src6.configInits = [] ∧
+    (W.rt6.globalsMeta = W.fr6.globalsMeta ∧ W.rt6.programs = W.fr6.programs ∧ W.rt6.fbs = W.fr6.fbs) ∧
+    WF W.rt6 ∧ PlainInits W.rt6.globalsMeta W.rt6.programs ∧ SingleInitFalse W.src6 W.fr6 ∧
+    W.rt6.taskState.length = W.src6.tasks.length ∧ (restart .cold W.rt6).toOption.isSome = true ∧
+    (∀ r, r ∈ W.rt6.bindingRefs → r.loc = .global) := by
+  have hb : build W.src6 = some W.fr6 := by
+    unfold W.fr6
+    cases h : build W.src6 with
+    | none => exact absurd h (by decide)
+    | some fr => rfl
+  have hs : SingleInitFalse W.src6 W.fr6 := by
+    intro t ht
+    simp only [W.src6, List.mem_singleton] at ht
+    subst ht
+    decide
+  exact ⟨hb, rfl, ⟨rfl, rfl, rfl⟩, ⟨by decide, by decide, by decide, by decide⟩, ⟨by decide, by decide⟩, hs,
+    by decide, by decide, by decide⟩
+
+/-- The hypotheses of `c09_power_cycle_globals_partial` are satisfiable (witness 3 with a store). -/
+example :
+    W.rt3s.retain.isSome = true ∧ (W.rt3s.globalsMeta.map (·.name)).Nodup ∧
+    (∃ m, m ∈ W.rt3s.globalsMeta ∧ retainOnWarm m.retain = true ∧
+      W.num? (W.rt3s.storage.getGlobal m.name) = some 2) :=
+  ⟨by decide, by decide, W.rt3s.globalsMeta[0]'(by decide), List.getElem_mem _, by decide, by decide⟩
+
 end TrustVerif.C09
